@@ -12,7 +12,7 @@ BASE_NOTE = ("Every property file also carries computed closed-world facts about
 P = {
  "C01": ("Theorems C01_encode / C01_shape: for every entropy of a valid length and each declared language the panic-aware Gallina model of NewMnemonicByEntropy returns exactly the specification's BIP39 sentence over the pinned canonical list. Word tables, the list() switch, the gate and the separator literals are regenerated from the Go AST on every run, so the theorem is re-checked against the current source; the hand-transcribed arithmetic body of fromEntropy is tied by differential runs (implementation vs extracted model vs extracted specification) over (position,index) diagonals, every checksum-byte value, bit runs and random entropies.",
          "Coq proof (model = BIP39 spec, all inputs) + translator-regenerated tables/gates + model/impl/spec differential correspondence", "5 C01"),
- "C05": ("Theorems C05_decode / C05_injective: the specification's independent decoder (Unicode-whitespace split, canonical index lookup, 11-bit concatenation, checksum dropped) applied to the model's output returns the original entropy, for all valid entropies and the ten languages; needs the computed well-formedness (2048 distinct, separator-free, UTF-8-valid words) of the tables read from the source. The implementation's output is decoded by the extracted decoder on every run, with single-bit flips.",
+ "C05": ("Theorems C05_decode / C05_injective / C05_new_injective (through the random path: sources whose first 4n/3 delivered bytes differ never share a mnemonic): the specification's independent decoder (Unicode-whitespace split, canonical index lookup, 11-bit concatenation, checksum dropped) applied to the model's output returns the original entropy, for all valid entropies and the ten languages; needs the computed well-formedness (2048 distinct, separator-free, UTF-8-valid words) of the tables read from the source. The implementation's output is decoded by the extracted decoder on every run, with single-bit flips.",
          "Coq proof (decode . encode = id, all inputs) + computed table facts + differential decode of implementation output", "5 C05"),
  "C09": ("Theorems C09_entropy_accept/_reject, C09_words_reject/_accept, C09_gates: the gate conditions are translated from the Go `if` conditions into Z -> bool functions on every run and proved (lia) to accept exactly 16..32 step 4 and 12..24 step 3 for every integer; the model returns the sentinel errors, leaves the read script untouched on rejection, and a non-empty mnemonic with nil error on acceptance. Differential: all lengths 0..600, nil, 2^k+-1; all counts in [-300,300] and around the extremes of int, with errors.Is and a read counter.",
          "Coq proof over generated gate functions (all integers) + exhaustive small-range sweep of the implementation", "5 C09"),
@@ -25,7 +25,7 @@ P.update({
          "Coq proof (validator = spec classifier; all valid sentences accepted) + differential correspondence on generated and crafted valid sentences", "5 C02"),
  "C03": ("Theorems C03_sound, C03_exact, C03_iff, C03_unsupported, C03_count: acceptance implies that the Unicode-whitespace tokens of the NFKD form are 12..24 canonical words with a correct checksum - for every string and every lib meeting the contract (a non-xsafe string is rejected because U+034F cannot occur in a list word); IsMnemonicValid <-> nil; nil maps accept nothing; for any fixed prefix exactly 2^(11-n/3) of the 2048 last words are accepted (proved by a counting argument with the hash abstract, not enumeration); C03_exact: a string is accepted iff its NFKD form is the U+0020-joined sentence of some valid entropy. Differential: damaged sentences, substitutions, all 2048 last words of sample prefixes (set and count vs the specification), membership probed by volume (millions of pseudo-random tokens), affix substitutions, histories of validator calls in one single-P process.",
          "Coq proof (acceptance => valid sentence, exact accept count) + differential search with full last-word sweeps", "5 C03"),
- "C06": ("Theorems C06_newmnemonic, C06_read_full: for every read script (any fragmentation, zero-length reads, any error kind at any point, bytes alongside or not) the model of NewMnemonic (io.ReadAtLeast transcribed) returns the BIP39 encoding of the first 4n/3 delivered bytes with n words, or the empty string and the reader's error when fewer are delivered - by induction over the script. Differential through the verif swap hook: every failure point x kind x with/without bytes, 2-fragmentations, random fragmentations, bytewise and over-long readers; io.ReadFull itself against the transcription.",
+ "C06": ("Theorems C06_newmnemonic, C06_read_full, C06_takes_exactly / C06_read_full_conserves (conservation: buffer returned ++ what the source still holds = what it held before, so exactly the encoded bytes leave the source, nothing is skipped or read ahead; a rejected count takes nothing): for every read script (any fragmentation, zero-length reads, any error kind at any point, bytes alongside or not) the model of NewMnemonic (io.ReadAtLeast transcribed) returns the BIP39 encoding of the first 4n/3 delivered bytes with n words, or the empty string and the reader's error when fewer are delivered - by induction over the script. Differential through the verif swap hook: every failure point x kind x with/without bytes, 2-fragmentations, random fragmentations, bytewise and over-long readers; io.ReadFull itself against the transcription.",
          "Coq proof by induction over read scripts + fault enumeration of the implementation through the swap hook", "5 C06"),
  "C10": ("Theorems C10_same_nfkd, C10_valid_spellings, C10_nfkd_idempotent, C10_normalised_form: for every lib meeting the contract and every Language value, two valid UTF-8 strings with equal NFKD forms get the same verdict (inside xsafe even the same error); every spelling whose NFKD form is a valid sentence is accepted; NFKD (UAX #15 over the pinned table) is proved idempotent on valid UTF-8, so a string and its NFKD form are validated alike. The Gallina NFKD (UAX #15 over the pinned Unicode 15 table) is compared with norm.NFKD.String by the K stream. Differential: every list word in NFC/NFD/NFKC/full-width inside sentences, six separators that NFKD maps to U+0020, arbitrary Unicode in other normal forms.",
          "Coq proof over an explicit library contract + differential correspondence on equivalent spellings", "5 C10"),
